@@ -4,7 +4,8 @@ import BddProofs.Init
 /-! # C13 — `sat_count` is the exact number of satisfying assignments
 
 `count φ n` = number of assignments to `x_1 … x_n` satisfying `φ` (recursion over the variables).
-`BigUint` is modelled by `Nat`, so there is no precision bound; `(lo + hi) >>> 1` is exact. -/
+`BigUint` is modelled by `Nat`, so there is no precision bound; `(lo + hi) >>> 1` is exact.
+Purity: `satCount fuel s f n : Except Fault Nat` takes the state and returns only a number. -/
 namespace P
 
 /-- the procedure (memo per signed handle, complement by subtraction from `2^n`) returns the
@@ -25,9 +26,6 @@ theorem C13_inclusion_exclusion (φ ψ : Fn) (n : Nat) :
 theorem C13_unused_variable {φ : Fn} {n : Nat}
     (h : ∀ e e' : Env, (∀ w, w < n + 1 → e w = e' w) → φ e = φ e') : count φ (n + 1) = 2 * count φ n :=
   count_extend h
-
-/-- it is a pure query: the model function takes the state and returns only a number -/
-theorem C13_pure (fuel : Nat) (s : St) (f : Ref) (n : Nat) : ∃ o : Except Fault Nat, satCount fuel s f n = o := ⟨_, rfl⟩
 
 /-- non-vacuity -/
 example : satCount 3 s4 Ref.one 5 = .ok 32 ∧ Good s4 := ⟨by rfl, s4_good⟩
